@@ -207,7 +207,10 @@ def check_case(case):
     for d in diffs:
         loc = locus_of(d)
         shape = case['shape']
-        if case.get('shape2') and loc.endswith(('ctor[0].a[1].t', 'method[1].a[0].t', '/fn.a[1].t')):
+        import re as _re
+        mi = _re.match(r'^/gt\.c\[(\d+)\]', d)
+        in_foo_or_fn = mi is not None and int(mi.group(1)) in (0, 1, 3, 4)     # the two Foo instantiations and fn's: only they hold the second shape
+        if case.get('shape2') and in_foo_or_fn and loc.endswith(('ctor[0].a[1].t', 'method[1].a[0].t', '/fn.a[1].t')):
             shape = case['shape2']      # the position that holds the second shape of a pair case
             loc = 'second-shape:' + loc
         viol.append({'sig': 'C02|%s|%s|%s|%s|%s' % (shape, case['conc'], case['P'], loc, failure_kind(d, case['P'])),
